@@ -27,44 +27,44 @@ CLAIMED["C07"] = dict(
 CLAIMED["C04"] = dict(
    technique="property-based testing: structured terminal-side protocol printer (independent encoder of keys/reports/SGR/OSC/kitty) -> decoder, exact comparison with the denoted events (round-trip against an independent encoder), table sweeps; thorough: + coverage-guided fuzzing (libFuzzer, entropy-driven: the fuzzer's bytes drive the same generator) with the same oracle in-target",
    level="exploration",
-   text="Sequences of 1-8 generated items over every report family with boundary-biased parameters are printed by an independent protocol printer and must decode to exactly the denoted events; every key of the pinned naming table, every mouse button code, every 256-colour index and every DEC mode x status is swept. Sampled over parameter values and concatenations. Half of the cases are decoded a second time through a scripted BufRead under a generated read schedule (cuts snapped behind ESC / the introducer / ESC ESC, reads that return nothing, reads that fail with WouldBlock / Interrupted and are retried) and must yield the same events; every interior cut of one exemplar per family is swept.",
+   text="Sequences of 1-8 generated items over every report family with boundary-biased parameters are printed by an independent protocol printer and must decode to exactly the denoted events; every key of the pinned naming table, every mouse button code, every 256-colour index and every DEC mode x status is swept. Sampled over parameter values and concatenations. Half of the cases are decoded a second time through a scripted BufRead under a generated read schedule (cuts snapped behind ESC / the introducer / ESC ESC, reads that return nothing, reads that fail with WouldBlock / Interrupted and are retried) and must yield the same events; every interior cut of one exemplar per family is swept. One long paste in thirty has 64-100 KB.",
    note="The key/button naming table and the 16 named colours are pinned from the library (the property defers to the library's table). SGR semantics from ECMA-48/xterm/kitty in refsgr.rs. 12/16-bit colour reduction accepted between truncation and rounding.",
    design="§3 C04")
 CLAIMED["C18"] = dict(
    technique="property-based testing: model-based (dictionary model) over generated registration histories with exhaustive lookups after every step; stateful matcher implications; parser totality + print/parse round trip over generated and swept strings; thorough: + coverage-guided fuzzing (libFuzzer) of parser inputs and registration histories with the same oracle in-target",
    level="exploration",
-   text="Registration/override histories over a colliding key pool are replayed against a BTreeMap model with all 1554 chords of length <=4 looked up after every step; a bounded-exhaustive sweep covers all histories of 4 registrations over 2 keys; every Unicode scalar is pushed through the three parsers in four string positions; grammar-shaped and mutated strings are generated. Key-stream cases live through 1-3 rebinds of one KeyMapHandler (prefix left pending, clear() + new registrations or registrations on top, more typing). Thorough tier additionally runs a coverage-guided libFuzzer campaign (cargo-fuzz, 8 processes, fixed number of executions, seeded with generated cases) whose in-target oracle is the same check function.",
+   text="Registration/override histories over a colliding key pool (two keys differ in letter case only) are replayed against a BTreeMap model with all 1554 chords of length <=4 looked up after every step; a bounded-exhaustive sweep covers all histories of 4 registrations over 2 keys; every Unicode scalar is pushed through the three parsers in four string positions; grammar-shaped and mutated strings are generated. Key-stream cases live through 1-3 rebinds of one KeyMapHandler (prefix left pending, clear() + new registrations or registrations on top, more typing). Thorough tier additionally runs a coverage-guided libFuzzer campaign (cargo-fuzz, 8 processes, fixed number of executions, seeded with generated cases) whose in-target oracle is the same check function.",
    note="Matcher is checked only for the two implications the property states. Which strings a parser accepts is not part of the property.",
    design="§3 C18")
 CLAIMED["C20"] = dict(
    technique="property-based testing: brute-force nearest-entry oracle over the xterm 256-colour table in the library's linear-light metric, grey-level nearest/monotone oracle, true-colour identity; thorough tier enumerates all 2^24 colours; thorough: + coverage-guided fuzzing (libFuzzer, entropy-driven: the fuzzer's bytes drive the same generator) with the same oracle in-target",
    level="exploration",
-   text="Quick: 16^3 lattice, all palette entries +-1, all greys, and 3.2M generated colours in five colour slots and three depths, 15% of them on an encoder that was used before for a translucent colour. Thorough: ALL 2^24 colours x 5 slots x 3 depths (exhaustive).",
+   text="Quick: 16^3 lattice, all palette entries +-1, all greys, and 3.2M generated colours in five colour slots and three depths, 15% of them on an encoder that was used before for a translucent colour. Thorough: ALL 2^24 colours x 5 slots x 3 depths (exhaustive). Half of the cases and sweep chunks take the 256-colour encoder from TTYEncoder::default().",
    note="Distance metric computed through the public rasterize conversion in f64; tolerance tau=2e-5 (measured worst excess 2.6e-7 from the library's 6-digit tables); either neighbouring grey level accepted only between the midpoint of exact thirds and the midpoint of the library's 0.33/0.66 levels (+-0.001); luma as rasterize defines it.",
    design="§3 C20")
 
 CLAIMED["C02"] = dict(
    technique="property-based testing / generational fuzzing in a worker process: hostile grammar-aware byte strings + mutated protocol output under generated read partitions; oracles = no crash/abort/hang, exhaustion => None, scalar validity, raw-bytes-equal-span, big-integer recomputation of every numeric field; thorough: + coverage-guided fuzzing (libFuzzer) with the same oracle in-target",
    level="exploration",
-   text="~1M generated byte strings per quick run (raw, hostile skeletons of every sequence family with extreme/empty parameters, malformed UTF-8, mutated well-formed output) cut into reads and fed to the event, command and UTF-8 decoders inside a worker process (aborts are attributed to the case). Numeric fields are recomputed from the input span in 128-bit arithmetic and must equal or be clamped. Thorough tier additionally runs a coverage-guided libFuzzer campaign (cargo-fuzz, 8 processes, fixed number of executions, seeded with generated cases) whose in-target oracle is the same check function. A second pass feeds the same reads through a generated API schedule (decode loop / decode_into into one long-lived vector / into a fresh vector): a call on exhausted input returns 0 and appends nothing, counts equal the growth of the vector, items do not depend on the API.",
+   text="~1M generated byte strings per quick run (raw, hostile skeletons of every sequence family with extreme/empty parameters, malformed UTF-8, mutated well-formed output) cut into reads and fed to the event, command and UTF-8 decoders inside a worker process (aborts are attributed to the case). Numeric fields are recomputed from the input span in 128-bit arithmetic and must equal or be clamped. Thorough tier additionally runs a coverage-guided libFuzzer campaign (cargo-fuzz, 8 processes, fixed number of executions, seeded with generated cases) whose in-target oracle is the same check function. A second pass feeds the same reads through a generated API schedule (decode loop / decode_into into one long-lived vector / into a fresh vector): a call on exhausted input returns 0 and appends nothing, counts equal the growth of the vector, items do not depend on the API. DEC mode reports are among the numeric fields (exact mode and status numbers of the pinned tables); the parameter pool contains values that agree with meaningful numbers modulo 2^8/2^16/2^32/2^64.",
    note="Clamp conventions are listed in the evidence assumptions. Spans come from the verif-hooks wrapper, which is cross-checked against the public API on every case.",
    design="§3 C02")
 CLAIMED["C03"] = dict(
    technique="property-based testing: metamorphic (token list invariant under byte-at-a-time, generated partitions and every single cut for inputs <=48 bytes) + validity predicate for leftmost-longest derived from the production DFA trace / a derivative reference matcher over generated pattern sets (hook); differential of the terminal object's tty read loop on a pseudo-terminal against the single-buffer decode; thorough: + coverage-guided fuzzing (libFuzzer) with the same oracle in-target",
    level="exploration",
-   text="Production event and command decoders: spans and items identical under all tested partitions (exhaustive over two-read schedules for short inputs), single-buffer tokenisation validated against the automaton's own acceptance trace. Tokeniser core: generated pattern sets built through the public NFA API run through the private tokeniser and validated against the Brzozowski matcher. Read loop: ~3.6k sessions per quick run type generated bytes into a pty in generated chunks (lock-step or free running, padded to straddle the 1024-byte read buffer); Terminal::poll must deliver exactly the events of a fresh decoder over one buffer. Thorough tier additionally runs a coverage-guided libFuzzer campaign (cargo-fuzz, 8 processes, fixed number of executions, seeded with generated cases) whose in-target oracle is the same check function. Partitions also contain reads that fail with WouldBlock / Interrupted and are retried on the same decoder.",
+   text="Production event and command decoders: spans and items identical under all tested partitions (exhaustive over two-read schedules for short inputs), single-buffer tokenisation validated against the automaton's own acceptance trace. Tokeniser core: generated pattern sets built through the public NFA API run through the private tokeniser and validated against the Brzozowski matcher. Read loop: ~3.6k sessions per quick run type generated bytes into a pty in generated chunks (lock-step or free running, padded to straddle the 1024-byte read buffer); Terminal::poll must deliver exactly the events of a fresh decoder over one buffer. Thorough tier additionally runs a coverage-guided libFuzzer campaign (cargo-fuzz, 8 processes, fixed number of executions, seeded with generated cases) whose in-target oracle is the same check function. Partitions also contain reads that fail with WouldBlock / Interrupted and are retried on the same decoder. A third of the read-loop sessions send an event-free prefix of the typed stream while SystemTerminal::open is still probing.",
    note="Grouping of unrecognised bytes is not prescribed (1..=longest viable prefix accepted). For production decoders the pattern set is the production automaton itself.",
    design="§3 C03")
 CLAIMED["C11"] = dict(
    technique="property-based testing: model-based over generated draw/erase/response histories; output parsed by an independent APC/kitty parser and RFC 4648 decoder and executed on a kitty reference model; thorough: + coverage-guided fuzzing (libFuzzer, entropy-driven: the fuzzer's bytes drive the same generator) with the same oracle in-target",
    level="exploration",
-   text="Histories of 1-15 events over content-equal images with different Arcs/strides, positions biased to the origin/edges, payload sizes around 4096-byte chunk boundaries; checks chunking, flags, payload = pixels, transmit-once, every placement refers to transmitted data, erase addresses exactly the drawn placement. Three histories in ten contain calls whose writer fails part-way (after n bytes or behind the k-th command): the failed call is not judged, a transmission cut before its last chunk counts as not transmitted, every later call is held to the unchanged clauses.",
+   text="Histories of 1-15 events over content-equal images with different Arcs/strides, positions biased to the origin/edges, payload sizes around 4096-byte chunk boundaries; checks chunking, flags, payload = pixels, transmit-once, every placement refers to transmitted data, erase addresses exactly the drawn placement. Three histories in ten contain calls whose writer fails part-way (after n bytes or behind the k-th command): the failed call is not judged, a transmission cut before its last chunk counts as not transmitted, every later call is held to the unchanged clauses. One case in 700 crops its windows out of a 96 MiB atlas.",
    note="Terminal-side semantics (p=0 = unspecified, error response invalidates an id) from the kitty graphics specification. Three signatures are listed as known findings (32-bit id collisions; the one cell (65535,65535) that cannot have its own placement id).",
    design="§3 C11")
 CLAIMED["C12"] = dict(
    technique="property-based testing: generated images/crops/backgrounds drawn through the sixel handler, decoded by an independent sixel interpreter; exact pixel oracle when colours fit, structural oracle otherwise; repeat-draw byte identity; thorough: + coverage-guided fuzzing (libFuzzer, entropy-driven: the fuzzer's bytes drive the same generator) with the same oracle in-target",
    level="exploration",
-   text="Images 6..40 rows (thorough up to 262x300, crossing the subsampling rule) in five pixel layouts with <=8, <=256 and >256 colours, transparent pixels, crops of crops, optional background; every emitted sequence is interpreted and checked for well-formedness, full coverage of the raster, register validity and, in the exact regime, pixel equality at 0-100 resolution. Four cases in ten draw, on the same handler, pictures with the same pixel sequence laid out in another shape; three in a hundred push 260-400 distinct tiny pictures through the handler before a redraw that must be byte-identical.",
+   text="Images 6..40 rows (thorough up to 262x300, crossing the subsampling rule) in five pixel layouts with <=8, <=256 and >256 colours, transparent pixels, crops of crops, optional background; every emitted sequence is interpreted and checked for well-formedness, full coverage of the raster, register validity and, in the exact regime, pixel equality at 0-100 resolution. Four cases in ten draw, on the same handler, pictures with the same pixel sequence laid out in another shape; three in a hundred push 260-400 distinct tiny pictures through the handler before a redraw that must be byte-identical. Every case runs on a thread of its own; 15% first draw a many-colour picture on another handler of that thread.",
    note="Partly translucent pixels are accepted within the gamma/linear compositing interval +-1; >256 colours or subsampled images are checked structurally only.",
    design="§3 C12")
 CLAIMED["C14"] = dict(
@@ -77,58 +77,58 @@ CLAIMED["C14"] = dict(
 CLAIMED["C05"] = dict(
    technique="property-based testing: generated command streams -> encoder -> independent ECMA-48/xterm parser and interpreter (differential against the commanded operations), SGR judged by a reference SGR state machine from arbitrary prior states; thorough: + coverage-guided fuzzing (libFuzzer, entropy-driven: the fuzzer's bytes drive the same generator) with the same oracle in-target",
    level="exploration",
-   text="Streams of 1-9 commands (every variant, boundary-biased numerics incl. i32::MIN/MAX and 0, all faces and face modifications) under 3 colour depths x kitty keyboard on/off; output must parse into complete self-contained sequences whose interpreted operations equal the commanded ones, also when parsed inside the stream, and also when the same encoder was first asked to encode into a writer that refuses part-way (one case in five). One case in five also encodes into a sink that accepts 1..k bytes per write call: what reaches the sink is held to the same oracle.",
+   text="Streams of 1-9 commands (every variant, boundary-biased numerics incl. i32::MIN/MAX and 0, all faces and face modifications) under 3 colour depths x kitty keyboard on/off; output must parse into complete self-contained sequences whose interpreted operations equal the commanded ones, also when parsed inside the stream, and also when the same encoder was first asked to encode into a writer that refuses part-way (one case in five). One case in five also encodes into a sink that accepts 1..k bytes per write call: what reaches the sink is held to the same oracle. 30% of the cases use translucent / history-correlated colours and are judged against a brand-new encoder per command and per colour.",
    note="Interpreter conventions (0/missing = 1 for counts; SGR tables) are the trusted base in refvt.rs/refsgr.rs. Which palette entry is selected at reduced depth is left to C20.",
    design="§3 C05")
 CLAIMED["C06"] = dict(
    technique="property-based testing: round trip (encoder -> command decoder) under generated chunkings + model-based check of the escape-sequence cell writer against a reference SGR state machine; thorough: + coverage-guided fuzzing (libFuzzer, entropy-driven: the fuzzer's bytes drive the same generator) with the same oracle in-target",
    level="exploration",
-   text="(a) faces, face modifications and characters encoded in true colour must be read back unchanged by the command decoder under three chunkings (one case in five after a failed encode into a refusing writer); (b) histories of SGR sequences in standard spellings and text written through tty_writer must yield cells whose faces follow SGR semantics from a generated initial face. Round-trip cases also encode into a sink that accepts 1..k bytes per write call; cell-writer histories also run over parents that refuse cells (capacity / clipped lines) and are rewound through parent(): the accepted cells must carry the faces the SGR machine gives over all bytes written.",
+   text="(a) faces, face modifications and characters encoded in true colour must be read back unchanged by the command decoder under three chunkings (one case in five after a failed encode into a refusing writer); (b) histories of SGR sequences in standard spellings and text written through tty_writer must yield cells whose faces follow SGR semantics from a generated initial face. Round-trip cases also encode into a sink that accepts 1..k bytes per write call; cell-writer histories also run over parents that refuse cells (capacity / clipped lines) and are rewound through parent(): the accepted cells must carry the faces the SGR machine gives over all bytes written. Cell-writer histories are also cut at item boundaries with a fresh tty_writer() instance per segment over the same parent.",
    note="Runs in a worker process (embeds the command decoder). Codes the record cannot express are outside the domain.",
    design="§3 C06")
 
 CLAIMED["C01"] = dict(
    technique="property-based testing: stateful/model-based over generated frame histories; renderer commands executed on a reference terminal screen; ground-truth display oracle + differential oracle against a fresh renderer on a blank screen; thorough: + coverage-guided fuzzing (libFuzzer, entropy-driven: the fuzzer's bytes drive the same generator) with the same oracle in-target",
    level="exploration",
-   text="~1M histories per quick run of paint/frame/no-frame/clear/dropped-frames/re-create (and, one case in 12, the library's own render loop on a scripted output queue with stalls, frame drops and Resize events, pictures kept on screen through the stall) over small terminals with narrow and wide characters, coloured blank runs, pool images (same Arc reused) and glyphs; after every delivered frame the reference screen must show exactly the surface and must equal a from-scratch repaint.",
+   text="~1M histories per quick run of paint/frame/no-frame/clear/dropped-frames/re-create (and, one case in 12, the library's own render loop on a scripted output queue with stalls, frame drops and Resize events, pictures kept on screen through the stall) over small terminals with narrow and wide characters, coloured blank runs, pool images (same Arc reused) and glyphs; after every delivered frame the reference screen must show exactly the surface and must equal a from-scratch repaint. Half of the terminals have a pixel size that is not a multiple of their cell count.",
    note="Reference screen semantics (wide-character halves, ECH with current face, images above text) are the trusted base; z-order among overlapping images and a wide character half under an image are treated as terminal specific. Two design limits are listed as known findings.",
    design="§3 C01")
 
 CLAIMED["C09"] = dict(
    technique="property-based testing: sentinel-canvas containment over generated windows (offset/strided/transposed), metamorphic chunk independence over generated write partitions, and an exactly-once/reading-order oracle for text rendered at its own layout size (independent layout model for no-wrap and CR cases); bounded-exhaustive sweep of short texts; thorough: + coverage-guided fuzzing (libFuzzer, entropy-driven: the fuzzer's bytes drive the same generator) with the same oracle in-target",
    level="exploration",
-   text="~1M cases per quick run: nine writer paths (put_cell, io::Write, utf8_writer, tty_writer, Text sinks, draw_view, layout+render) into windows of a sentinel canvas under three partitions incl. cuts inside UTF-8 characters and escape sequences; texts of 0-39 items (narrow/wide/zero-width chars, newlines, tabs, glyphs with fallback, images) laid out for widths 1-19 and rendered at the reported size, both wrap modes and glyph capabilities.",
+   text="~1M cases per quick run: nine writer paths (put_cell, io::Write, utf8_writer, tty_writer, Text sinks, draw_view, layout+render) into windows of a sentinel canvas under three partitions incl. cuts inside UTF-8 characters and escape sequences; texts of 0-39 items (narrow/wide/zero-width chars, newlines, tabs, glyphs with fallback, images) laid out for widths 1-19 and rendered at the reported size, both wrap modes and glyph capabilities. One text case in six lays the same long-lived Text (and clones of it) out and renders it 2-5 times under changing contexts, widths and after mutations.",
    note="A write refused after the window is full is recorded as a label (cells are identical). Faces of cells skipped by tab/newline and positions (as opposed to reading order) are not claimed by the property and not checked.",
    design="§3 C09")
 CLAIMED["C10"] = dict(
    technique="property-based testing: generated view trees (built through the API and through JSON deserialisation) with transparent spy wrappers recording per-node constraints and probe leaves painting their id; oracles = no panic / containment in a sentinel canvas / reported size within the received constraint / probe paint inside its layout rectangle / find_path hit-testing; thorough: + coverage-guided fuzzing (libFuzzer, entropy-driven: the fuzzer's bytes drive the same generator) with the same oracle in-target",
    level="exploration",
-   text="640k trees per quick run (<=12 nodes, <=5 levels; flex in both axes with every justify and 0-5 children, containers with every alignment incl. offsets and huge margins, frame, tag, dynamic, option/either, scroll bars incl. NaN positions, images, glyphs, text) under 1-3 constraints with extents from {0,1,2,3,7,20,80} and both glyph capabilities. Cell sizes include 0x0 (terminal without pixel size) and one zero extent; JSON trees resolve `ref` views through a cache whose entries change between calls and include a tag or a dynamic view at the root.",
+   text="640k trees per quick run (<=12 nodes, <=5 levels; flex in both axes with every justify and 0-5 children, containers with every alignment incl. offsets and huge margins, frame, tag, dynamic, option/either, scroll bars incl. NaN positions, images, glyphs, text) under 1-3 constraints with extents from {0,1,2,3,7,20,80} and both glyph capabilities. Cell sizes include 0x0 (terminal without pixel size) and one zero extent; JSON trees resolve `ref` views through a cache whose entries change between calls and include a tag or a dynamic view at the root. A quarter of the cases run with a tracing subscriber installed that enables every event and formats every field.",
    note="Alignment/justification geometry is not fixed by the property: only consistency between layout tree, painting and hit-testing is checked. JSON trees carry no probes (size clause checked at the root only).",
    design="§3 C10")
 CLAIMED["C13"] = dict(
    technique="property-based testing: brute-force nearest-colour oracle for quantised images and palette lookups, palette/ index bounds, exact reproduction when colours fit, octree pruning bounds; exhaustive 2^24-query sweeps for fixed palettes; thorough: + coverage-guided fuzzing (libFuzzer, entropy-driven: the fuzzer's bytes drive the same generator) with the same oracle in-target",
    level="exploration",
-   text="Images up to 48x48 (and at the sampling threshold), pixel pools relative to the requested palette size, alpha over generated backgrounds, crops (incl. narrow windows of wide pictures whose span in the backing buffer exceeds the sampling threshold), both dither settings; palettes of 1-512 colours incl. duplicates/collinear/clustered sets with member, +-1 neighbour and uniform queries; one (quick) or eleven (thorough) palettes are swept over ALL 2^24 query colours.",
+   text="Images up to 48x48 (and at the sampling threshold), pixel pools relative to the requested palette size, alpha over generated backgrounds, crops (incl. narrow windows of wide pictures whose span in the backing buffer exceeds the sampling threshold), both dither settings; palettes of 1-512 colours incl. duplicates/collinear/clustered sets with member, +-1 neighbour and uniform queries; one (quick) or eleven (thorough) palettes are swept over ALL 2^24 query colours. Every image case runs on a thread of its own after 0-2 prelude quantisations (another picture, or the same one with another background / palette size / dither flag); 16% of the images are transposed or strided views.",
    note="Compositing uses rasterize's blend_over (trusted). With dithering on only bounds and exact reproduction are claimed.",
    design="§3 C13")
 CLAIMED["C16"] = dict(
    technique="property-based testing: model-based interleavings of the byte queue; sessions of a real terminal object on a pseudo-terminal (one worker process per shard; with or without ioctl pixel size, SIGWINCH raised between operations) with a throttled peer and injected short writes/EAGAIN/EINTR (fault injection through the verif hook), framed chunks checked for order / exactly-once / untorn delivery; thorough: + coverage-guided fuzzing (libFuzzer, entropy-driven: the fuzzer's bytes drive the same generator) with the same oracle in-target",
    level="fault_enumeration",
-   text="Queue: ~44k generated operation histories per quick run compared with a deque model after every step. Terminal: ~3.7k pty sessions per quick run with records up to 64 KiB (thorough 256 KiB, far beyond the pty buffer), generated drain rates and cyclic write-fault patterns; the bytes received on the master side must be whole chunks in order, chunks written after the last frames_drop must be present. Every other pty session runs on a pty without pixel size whose peer answers the size request, and two in three raise SIGWINCH between operations: nothing but frames_drop may discard a chunk.",
+   text="Queue: ~44k generated operation histories per quick run compared with a deque model after every step. Terminal: ~3.7k pty sessions per quick run with records up to 64 KiB (thorough 256 KiB, far beyond the pty buffer), generated drain rates and cyclic write-fault patterns; the bytes received on the master side must be whole chunks in order, chunks written after the last frames_drop must be present. Every other pty session runs on a pty without pixel size whose peer answers the size request, and two in three raise SIGWINCH between operations: nothing but frames_drop may discard a chunk. Queue histories contain runs of writes without flush up to 2.5 MiB; one pty session in 35 assembles a unit above 1 MiB from many writes and drops frames while it is pending.",
    note="Kernel splitting of writes is sampled (real back-pressure from the pty + injected faults), not enumerated. A hang is reported as inconclusive.",
    design="§3 C16")
 CLAIMED["C17"] = dict(
    technique="property-based testing with an owned schedule: wakes from other threads, tty input and signals placed at named points of the poll loop (verif hook) in pty sessions, one terminal per worker process; generated exit paths with termios and closing-sequence inspection",
    level="exploration",
-   text="6.4k sessions per quick run: 0-4 rounds of {1-3 concurrent wakes | typed input | SIGWINCH} placed before the poll or at 7 schedule points x 3 loop iterations of polls with zero / 50 ms / no timeout, optionally with output pending and a stalled peer; exit by drop, drop with pending output, run/run_render handler error or quit, SIGTERM/INT/QUIT (also raised inside the release), back-pressure at drop, an application that queued its own mode-off commands, or master closed first; one session in four takes the terminal size from escape sequences (SIGWINCH answered by asking the terminal); termios must equal the snapshot, the closing sequence must be delivered / the terminal must end with mouse reporting off and the cursor visible. Backlog rounds (12% of rounds): a burst of keys confirmed (FIONREAD) to have been read by the poll that delivered the first one, output queued, SIGWINCH raised: the keys must precede the Resize.",
+   text="6.4k sessions per quick run: 0-4 rounds of {1-3 concurrent wakes | typed input | SIGWINCH} placed before the poll or at 7 schedule points x 3 loop iterations of polls with zero / 50 ms / no timeout, optionally with output pending and a stalled peer; exit by drop, drop with pending output, run/run_render handler error or quit, SIGTERM/INT/QUIT (also raised inside the release), back-pressure at drop, an application that queued its own mode-off commands, or master closed first; one session in four takes the terminal size from escape sequences (SIGWINCH answered by asking the terminal); termios must equal the snapshot, the closing sequence must be delivered / the terminal must end with mouse reporting off and the cursor visible. Backlog rounds (12% of rounds): a burst of keys confirmed (FIONREAD) to have been read by the poll that delivered the first one, output queued, SIGWINCH raised: the keys must precede the Resize. Storm rounds (15%): 2-4 threads call wake() in a tight loop while the main thread polls; a further request issued afterwards must be delivered.",
    note="Interleavings are sampled at hook points; races inside select(2) are not enumerable. poll(None) is guarded by a rescue thread; a poll that not even typed input ends is reported by the rescue thread with a signature naming the trigger.",
    design="§3 C17")
 
 CLAIMED["C19"] = dict(
    technique="property-based testing in a memory-capped worker process: serde/text round trips of generated faces (attribute sets built in steps), sizes, chords and images (crops, strided views, 1/3/4-channel JSON); grammar-based and arbitrary JSON / byte documents with per-field valid/missing/repeated/wrong-type/extreme modes and nesting up to 120 levels; every accepted view tree is laid out and rendered into a sentinel canvas",
    level="exploration",
-   text="64k cases per quick run; deserialisation must return Ok or Err without panic, abort, stack overflow or unbounded allocation (1 GiB address-space cap), and must finish (per-case time limit, re-tried once in a fresh process); successful view trees are laid out under three constraints with both glyph settings and rendered. Half of the documents are also laid out and rendered under a generated terminal (no pixel size / fewer pixels than cells / other cell sizes); the scripted reference cache hands out entries whose root keeps data in its layout node (tag, dynamic view, another reference).",
+   text="64k cases per quick run; deserialisation must return Ok or Err without panic, abort, stack overflow or unbounded allocation (1 GiB address-space cap), and must finish (per-case time limit, re-tried once in a fresh process); successful view trees are laid out under three constraints with both glyph settings and rendered. Half of the documents are also laid out and rendered under a generated terminal (no pixel size / fewer pixels than cells / other cell sizes); the scripted reference cache hands out entries whose root keeps data in its layout node (tag, dynamic view, another reference). Half of the cases run with a tracing subscriber installed that enables every event and formats every field.",
    note="One known finding is a defect of the rasterize dependency (arc path parser). 'Rendered' means View::layout + View::render, not glyph rasterisation by the terminal renderer.",
    design="§3 C19")
 
